@@ -125,6 +125,7 @@ func c04StdRoundTrips(v reflect.Value, t reflect.Type) bool {
 }
 
 func runC04(o *Out) {
+	slicePoolProbe(o, "C04")
 	r := o.rng
 	n := 2500
 	if o.tier == "thorough" {
